@@ -701,7 +701,48 @@ def check_remove_null_cols(chk, rule):
     txt = norm(fn)
     ok2 = 'm=m[used_cols,:]' in txt and 'm=m[:,used_cols]' in txt and 'args.append(used_cols)' in txt
     chk.ob(rule, ok2, 'compmech/sparse.py', 'remove_null_cols', 'same index set for rows and columns of every matrix, returned last')
-    return ok and ok2
+    # every reduced matrix derives from its own argument: inside the loop over the arguments, whatever is
+    # sliced and stored back at position i is built from the loop variable only (and the index set)
+    loops = [n for n in ast.walk(fn) if isinstance(n, ast.For) and 'args' in norm(n.iter)]
+    ok3, got3 = False, 'no loop over the arguments'
+    if loops:
+        lp = loops[-1]
+        tv = [e.id for e in ast.walk(lp.target) if isinstance(e, ast.Name)]
+        it = norm(lp.iter)
+        if it.startswith('enumerate(') and len(tv) == 2:
+            idx, item = tv
+        elif it.startswith('range(') and len(tv) == 1:
+            idx, item = tv[0], None
+        else:
+            idx, item = None, (tv[-1] if tv else None)
+        stored = [n for n in ast.walk(lp) if isinstance(n, ast.Assign) and isinstance(n.targets[0], ast.Subscript) and norm(n.targets[0].value) == 'args']
+        foreign = []
+        work = {norm(st.value) for st in stored}
+        seen = set()
+        while work:
+            w = work.pop()
+            if w in seen:
+                continue
+            seen.add(w)
+            for a in ast.walk(lp):
+                if isinstance(a, ast.Assign) and len(a.targets) == 1 and norm(a.targets[0]) == w:
+                    for e in ast.walk(a.value):
+                        if isinstance(e, ast.Name) and isinstance(e.ctx, ast.Load):
+                            if e.id in (item, idx, 'used_cols', 'args', w) or e.id in ('csr_matrix', 'csc_matrix', 'coo_matrix', 'np'):
+                                continue
+                            if any(isinstance(b, ast.Assign) and norm(b.targets[0]) == e.id for b in ast.walk(lp)):
+                                work.add(e.id)
+                            else:
+                                foreign.append('%s = %s' % (w, norm(a.value)))
+                        if isinstance(e, ast.Subscript) and norm(e.value) == 'args' and norm(e.slice) != idx:
+                            foreign.append('%s = %s' % (w, norm(a.value)))
+        ok3 = bool(stored) and (item is not None or idx is not None) and not foreign and all(norm(st.targets[0].slice) == idx for st in stored)
+        got3 = foreign or [norm(st) for st in stored]
+    chk.ob(rule, ok3, 'compmech/sparse.py', 'remove_null_cols', 'each reduced matrix is built from its own argument', line=loops[-1].lineno if loops else 0,
+           expected='args[i] = (conversion of) the i-th argument sliced by used_cols', got=got3,
+           detail='' if ok3 else 'a matrix built from another argument silently replaces the mass / geometric matrix by the stiffness matrix',
+           sample='remove_null_cols: args[i] derives from arg only')
+    return ok and ok2 and ok3
 
 
 def check_unconditional_recompute(chk, rule, rel, cls, meth, floor):
@@ -769,3 +810,91 @@ def check_assembly_fint_accumulator(chk, rule):
            expected='fint = np.zeros(size, ...) before `fint += p.calc_fint(...)` (the panels return typed memoryviews: %s)' % mv, got='fint = %s' % got,
            detail='' if ok else 'int 0 += memoryview raises TypeError: PanelAssembly.calc_fint fails for every input',
            sample='PanelAssembly.calc_fint: fint = %s, then += per panel' % got)
+
+
+def check_forwarding(chk, rule, rel, cls, param, methods=None, floor=1, why=''):
+    """a method of ``cls`` that receives ``param`` and calls another method of the class whose signature has the
+    same parameter hands its own value on (the callee's default would silently evaluate another state)"""
+    m = module(rel)
+    klass = m.classes[cls]
+    n = 0
+    for name, fn in klass.items():
+        if methods is not None and name not in methods:
+            continue
+        if param not in [a.arg for a in fn.args.args]:
+            continue
+        for c in pyflow.calls_in(fn):
+            if isinstance(c.func, ast.Attribute) and dotted(c.func.value) == 'self' and c.func.attr in klass:
+                callee = klass[c.func.attr]
+                if param not in [a.arg for a in callee.args.args]:
+                    continue
+                mp, probs = bind(c, Sig(callee, drop_self=True))
+                v = mp.get(param)
+                ok = v is not None and any(isinstance(x, ast.Name) and x.id == param for x in ast.walk(v)) and not probs
+                n += 1
+                chk.ob(rule, ok, rel, '%s.%s' % (cls, name), '%s forwarded to self.%s #%d' % (param, c.func.attr, sum(1 for c2 in pyflow.calls_in(fn) if isinstance(c2.func, ast.Attribute) and c2.func.attr == c.func.attr and c2.lineno <= c.lineno)),
+                       line=c.lineno, expected='self.%s(..., %s=%s)' % (c.func.attr, param, param), got=norm(c)[:100],
+                       detail='' if ok else ('the callee falls back to its default %s' % param) + (': ' + why if why else ''),
+                       sample='%s.%s -> self.%s(%s=%s)' % (cls, name, c.func.attr, param, norm(v) if v is not None else None))
+    chk.floor('%s %s forwarding call sites' % (rule, param), n, floor)
+
+
+def check_derive_order(chk, rule, rel, cls, meth, floor=1, only=None):
+    """inside a rebuild routine a derived quantity - ``self.X = f(other attributes)`` assigned unconditionally at the
+    top level of the routine - is not read by an earlier statement of the same routine (that read sees the value the
+    previous rebuild left behind: a changed definition takes effect one request late)"""
+    m = module(rel)
+    fn = m.method(cls, meth)
+    fname = '%s.%s' % (cls, meth)
+    n = 0
+    for k, st in enumerate(fn.body):
+        if not isinstance(st, ast.Assign):
+            continue
+        for t in st.targets:
+            if not (isinstance(t, ast.Attribute) and dotted(t.value) == 'self'):
+                continue
+            x = t.attr
+            if only is not None and x not in only:
+                continue
+            if any(isinstance(y, ast.Attribute) and dotted(y.value) == 'self' and y.attr == x for y in ast.walk(st.value)):
+                continue
+            if not any(isinstance(y, ast.Attribute) and dotted(y.value) == 'self' for y in ast.walk(st.value)):
+                continue
+            early = [y for prev in fn.body[:k] for y in ast.walk(prev)
+                     if isinstance(y, ast.Attribute) and dotted(y.value) == 'self' and y.attr == x and isinstance(y.ctx, ast.Load)]
+            n += 1
+            chk.ob(rule, not early, rel, fname, 'derived self.%s assigned before it is read' % x, line=st.lineno,
+                   expected='no statement of %s before line %d reads self.%s' % (fname, st.lineno, x), got=['line %d' % y.lineno for y in early],
+                   detail='' if not early else 'the read at line %d uses the self.%s of the previous rebuild; after the definition changes, the quantities derived from it disagree with each other' % (early[0].lineno, x),
+                   sample='%s: self.%s = %s precedes all its reads' % (fname, x, norm(st.value)[:50]))
+    chk.floor('%s derived quantities of %s' % (rule, fname), n, floor)
+
+
+def check_one_laminate_matrix(chk, rule):
+    """the analytic kernels (fk0, fkG0, ...) read the laminate matrix from panel.lam.ABD, the numeric ones (fkL_num,
+    fkG_num, calc_fint) receive what Panel._get_lam_F returns.  _get_lam_F edits its matrix in place (forced
+    orthotropy, shear correction): the two families see the same numbers only while it edits the laminate's own
+    array, i.e. F is bound to self.lam.ABD / self.lam.ABDE itself and not to a copy"""
+    readers = []
+    for rel in sorted(pyxast.built_sources(REPO)):
+        if not rel.startswith('compmech/panel/models/') or rel.endswith('_num.pyx'):
+            continue
+        src = pyxast.parse(repo_path(rel), REPO).src
+        for mt in re.finditer(r'^\s*F\s*=\s*panel\.lam\.(\w+)\s*$', src, re.M):
+            readers.append((rel, mt.group(1)))
+    m = module(PANEL)
+    fn = m.method('Panel', '_get_lam_F')
+    stores = [n for n in ast.walk(fn) if isinstance(n, (ast.Assign, ast.AugAssign)) and
+              isinstance(n.targets[0] if isinstance(n, ast.Assign) else n.target, ast.Subscript) and
+              norm((n.targets[0] if isinstance(n, ast.Assign) else n.target).value) == 'F']
+    defs = [n for n in ast.walk(fn) if isinstance(n, ast.Assign) and norm(n.targets[0]) == 'F']
+    chk.need(defs, 'Panel._get_lam_F: no definition of F found')
+    for d in defs:
+        alias = isinstance(d.value, ast.Attribute) and norm(d.value) in ('self.lam.ABD', 'self.lam.ABDE')
+        ok = alias or not stores or not readers
+        chk.ob(rule, ok, PANEL, 'Panel._get_lam_F', 'F = %s is the laminate\'s own array' % norm(d.value)[:40], line=d.lineno,
+               expected='F bound to self.lam.ABD / self.lam.ABDE itself (the %d in-place edits that follow must reach the array that %d analytic kernels read as panel.lam.ABD)' % (len(stores), len(readers)),
+               got=norm(d.value),
+               detail='' if ok else 'with force_orthotropic_laminate (or the shear correction) the numeric kernels get the edited copy while fk0 keeps the unedited laminate: kT(0) != K0 and fint does not reduce to K0.c',
+               sample='_get_lam_F: F = %s (alias), %d in-place edits, %d analytic readers of panel.lam.ABD' % (norm(d.value), len(stores), len(readers)))
+    chk.floor(rule + ' analytic kernels reading panel.lam.ABD', len(readers), 6)
